@@ -69,6 +69,9 @@ TFinal == Is("Final") /\ Same /\ ~E.panicked /\ O!Settled
 TDial == Is("OpenCase") /\ Same /\ O!OkStatus(E.status)
          /\ (\A k \in DOMAIN E.dialed : E.dialed[k] = E.backend)
          /\ (E.status = 200 /\ E.class # "outside-prefix" => (E.saw_path = E.want_path /\ E.saw_query = E.want_query /\ Len(E.dialed) >= 1))
+         \* the Host of the handshake is the backend's own name or (--rewrite-websocket-host) the Host of the client's request,
+         \* never an authority named in the supplied URL
+         /\ E.saw_host \in {"", E.backend, E.req_host, "127.0.0.1"}
          \* requests outside the shim prefix reach the wrapped handler untouched (the harness reports 200 iff they did)
          /\ (E.class = "outside-prefix" => (E.status = 200 /\ E.dialed = <<>>))
                /\ Step
